@@ -329,6 +329,13 @@ def i7(ctx):
                 child = role_str(b.role_of_operand(rec[0].args[0 if what == "lookup_rec_expr" else 1]))
                 # same loop counter drives the child index and the occurrence index
                 idx_ok = ("next(" in i_w) and ("next(" in child)
+        if not idx_ok:
+            # zipped form: `for (i, r) in refs.iter_mut().enumerate() { **r = rec(children[i]) }`
+            child = b.role_of_operand(rec[0].args[0 if what == "lookup_rec_expr" else 1])
+            for s_ in st:
+                tgt = b.role_of_local(s_["lhs"]["l"])
+                if role_mentions_call(tgt, "enumerate") and role_mentions_call(tgt, "applied_id_occurrences_mut") and role_mentions_call(child, "enumerate"):
+                    idx_ok = True
         ctx.check(bool(st) and idx_ok, "child-to-occurrence:" + what, "the i-th child's result replaces the i-th applied-id occurrence",
                   "%s does not store the i-th child's result into the i-th applied-id occurrence of the node" % what, where_of(b))
         # the final call dominates nothing else and gets the patched node
